@@ -106,7 +106,8 @@ fn name_exact(rng: &mut Rng, target: usize, suffix: &[Vec<u8>], one_octet_labels
 
 impl<'a> SGen<'a> {
     pub fn new(rng: &'a mut Rng, index: u64) -> Self {
-        let mode = MODES[(index % MODES.len() as u64) as usize];
+        // (the shards take every nshards-th index: the mixing keeps every shard on all modes)
+        let mode = MODES[((index ^ (index >> 4) ^ (index >> 9)) % MODES.len() as u64) as usize];
         let mode = if index % 997 == 500 { Mode::Msg65535 } else { mode };
         let mut g = SGen { rng, mode, fam: Vec::new() };
         g.make_family();
@@ -440,7 +441,8 @@ impl<'a> SGen<'a> {
                 json!({"strings": ss.iter().map(|s| hex(s)).collect::<Vec<_>>()})
             }
             // empty RDATA of NULL / unknown types: RFC 1035 §3.3.10 "anything at all", RFC 3597 §5 "\# 0"
-            "NULL" => json!({"data": hex(&self.blob(0, 65000))}),
+            // (kept to the Empty mode: every such record is a known finding and ends its case early)
+            "NULL" => json!({"data": hex(&self.blob((self.mode != Mode::Empty) as usize, 65000))}),
             "OPENPGPKEY" => json!({"data": hex(&self.blob(1, 65000))}),
             "Unknown" => {
                 let code = loop {
@@ -449,7 +451,7 @@ impl<'a> SGen<'a> {
                         break c;
                     }
                 };
-                json!({"code": code, "data": hex(&self.blob(0, 65000))})
+                json!({"code": code, "data": hex(&self.blob((self.mode != Mode::Empty) as usize, 65000))})
             }
             "CAA" => {
                 let critical = self.rng.bool();
@@ -639,7 +641,8 @@ impl<'a> SGen<'a> {
     /// One message. `index` drives the enumerated parts: flag combination, opcode, primary record
     /// kind, first EDNS option kind, TSIG algorithm.
     pub fn message(&mut self, index: u64) -> Value {
-        let fbits = index % 128; // every combination of QR AA TC RD RA AD CD
+        // every combination of QR AA TC RD RA AD CD: a bijection on every aligned block of 128 indices
+        let fbits = (index ^ (index >> 7)) % 128;
         let opcode = ((index / 128) + index % 7) % 16;
         let update = opcode == 5;
         let with_edns = self.rng.chance(2, 5);
@@ -668,6 +671,7 @@ impl<'a> SGen<'a> {
         let primary = KINDS[(index % KINDS.len() as u64) as usize];
         let nrec = match self.mode {
             Mode::Msg65535 => self.rng.urange(0, 3),
+            Mode::Max => self.rng.urange(1, 5),
             _ => match self.rng.below(16) {
                 0 => 0,
                 1 => self.rng.urange(12, 40),
